@@ -45,11 +45,13 @@ class Hist:
         shutil.rmtree(self.base, ignore_errors=True)
         os.makedirs(os.path.join(self.base, "files"))
         self.refbase = refbase
-        self.paths = {"A": os.path.join(self.base, "files", "a.txt"), "B": os.path.join(self.base, "files", "b.md"), "C": os.path.join(self.base, "files", "c.rs")}
-        self.lang = {"A": "plaintext", "B": "markdown", "C": "rust"}
+        # D: a file whose path differs from A's only in letter case (a different file on this file system)
+        self.paths = {"A": os.path.join(self.base, "files", "a.txt"), "B": os.path.join(self.base, "files", "b.md"), "C": os.path.join(self.base, "files", "c.rs"),
+                      "D": os.path.join(self.base, "files", "A.TXT")}
+        self.lang = {"A": "plaintext", "B": "markdown", "C": "rust", "D": "plaintext"}
         self.text = {}
         self.user = []
-        self.filew = {"A": [], "B": [], "C": []}
+        self.filew = {"A": [], "B": [], "C": [], "D": []}
         self.trace = []
         self.findings = []
         self.checks = 0
@@ -66,11 +68,30 @@ class Hist:
         self.server = Server(self.srvdir)
         if self.preseed and not self.user and not os.path.exists(self.server.user_dict):
             os.makedirs(os.path.dirname(self.server.user_dict), exist_ok=True)
-            pre = ["preseeded", "alreadyhere"] + (big_seed_words(self.rng, self.rng.randint(600, 2500)) if self.big else [])
-            with open(self.server.user_dict, "w", encoding="utf-8") as f:
-                f.write("".join(w + "\n" for w in pre))
+            pre = ["preseeded", "alreadyhere"] + (big_seed_words(self.rng, self.rng.randint(600, 2500)) if self.big else ["zwolfish", "kappaesque", "quebecish"][: self.rng.randint(0, 3)])
+            # the shapes word lists have in the wild: written by an editor on another platform, merged by hand, synced
+            shape = self.rng.choice(["lf", "lf", "crlf", "crlf+duplicates", "blank-lines", "no-final-newline", "duplicates", "crlf+blank-lines"])
+            eol = "\r\n" if shape.startswith("crlf") else "\n"
+            lines = list(pre)
+            if "duplicates" in shape:
+                lines = lines + lines[: max(1, len(lines) // 2)] + lines[-1:]
+            if "blank-lines" in shape:
+                lines = [x for w in lines for x in (w, "")] + ["", ""]
+            body = eol.join(lines) + ("" if shape == "no-final-newline" else eol)
+            with open(self.server.user_dict, "w", encoding="utf-8", newline="") as f:
+                f.write(body)
             self.user = list(pre)
-            self.trace.append({"op": "dictionary file on disk", "words": pre[:4], "n_words": len(pre)})
+            self.trace.append({"op": "dictionary file on disk", "shape": shape, "bytes": len(body.encode("utf-8")), "words": pre[:5], "n_words": len(pre)})
+            if self.rng.random() < 0.5:
+                # and a per-file dictionary for document A, same shape
+                fp = os.path.join(self.server.file_dict_dir, model.file_dict_name(self.paths["A"]))
+                os.makedirs(os.path.dirname(fp), exist_ok=True)
+                fpre = ["fileseeded", "onlyhereish"]
+                flines = fpre + (fpre if "duplicates" in shape else [])
+                with open(fp, "w", encoding="utf-8", newline="") as f:
+                    f.write(eol.join(flines) + ("" if shape == "no-final-newline" else eol))
+                self.filew["A"] = list(fpre)
+                self.trace.append({"op": "file dictionary of A on disk", "shape": shape, "words": fpre})
         self.server.initialize()
         for k in self.text:
             self.server.open(uri_for(self.paths[k]), self.text[k], self.lang[k])
@@ -135,7 +156,7 @@ class Hist:
         got = model.read_word_file(s.user_dict)
         self.checks += 1
         self._cmp_file("user", got, self.user, why)
-        for k in ("A", "B", "C"):
+        for k in ("A", "B", "C", "D"):
             p = os.path.join(s.file_dict_dir, model.file_dict_name(self.paths[k]))
             got = model.read_word_file(p)
             if self.filew[k] or got is not None:
@@ -147,7 +168,7 @@ class Hist:
             if want:
                 self.finding("dictfile.missing", "%s dictionary file does not exist after %s although %r were added" % (name, why, want))
             return
-        if sorted(got) == sorted(want):
+        if not isinstance(got, str) and sorted(set(got)) == sorted(set(want)):
             return
         lost = [w for w in want if w not in got]
         extra = [w for w in got if w not in want]
@@ -187,7 +208,7 @@ class Hist:
                     self.filew[k].append(w)
                 self.refresh_all()
             elif r < 0.85:
-                k = rng.choice(["A", "B", "C"])
+                k = rng.choice(["A", "B", "C", "D", "A", "D"] if "D" in self.text or rng.random() < 0.5 else ["A", "B", "C"])
                 t = model.make_text(rng, WORDS)
                 if k == "C":
                     # prose in comments, identifiers in code: the identifier set changes from edit to edit
